@@ -66,6 +66,10 @@ Definition zorder_same (s s' : snap) : Prop := s_l2v s' = s_l2v s /\ s_v2l s' = 
 Definition zchanges_order (o : zhop) : bool :=
   match o with ZHAddVars _ | ZHSetVarOrder _ => true | _ => false end.
 
+(** every call but a reordering leaves the level sets of the families as they are *)
+Definition zkeeps_levels (o : zhop) : bool :=
+  match o with ZHSetVarOrder _ => false | _ => true end.
+
 Section HistZ.
 Variable gt : ref -> ref -> bool.
 Variable C : Type.
@@ -145,7 +149,8 @@ Definition hframe_z (st : hstate_z) (o : zhop) (st' : hstate_z) : Prop :=
      ref_ok s' r /\
      forall a, zbfun_of s' r a = zbfun_of s r a && newfalse (nlevels s) (nlevels s') a) /\
   nlevels s <= nlevels s' /\
-  (zchanges_order o = false -> zorder_same s s').
+  (zchanges_order o = false -> zorder_same s s') /\
+  (zkeeps_levels o = true -> forall r, zroot st r -> fam_of s' r = fam_of s r).
 
 (** the family of sets of variables of every kept edge is unchanged - by every
     call, [add_vars] included *)
@@ -229,7 +234,7 @@ Lemma framez_put : forall st o s' c' d r, HInvZ st -> zhdst o = Some d -> zchang
   hframe_z st o (mkHZ (put s' d r) c').
 Proof.
   intros st o s' c' d r I Hd Hco B' X. pose proof (hzi_ok st I) as B.
-  split; [|split; [|split]]; simpl.
+  split; [|split; [|split; [|split]]]; simpl.
   - intros x Hx. rewrite Hd in Hx. unfold put. simpl.
     rewrite hget_hset_other by congruence. rewrite (ext_handles _ _ X). reflexivity.
   - intros r0 Hr. pose proof (zroot_ok st r0 I Hr) as Ok. split.
@@ -241,6 +246,8 @@ Proof.
   - unfold put. change (nlevels (set_handles s' (hset (s_handles s') d (E r)))) with (nlevels s').
     rewrite (ext_nlevels _ _ X). lia.
   - intros _. split; [apply (ext_l2v _ _ X) | apply (ext_v2l _ _ X)].
+  - intros _ r0 Hr. unfold put. rewrite fam_of_set_handles.
+    apply (grows_fam _ s' r0 (zo_wf _ B) (zo_kind _ B) (extends_grows _ _ X) (zroot_ok st r0 I Hr)).
 Qed.
 
 Lemma zholds_put : forall s' c' d r F, (forall a, zbfun_of s' r a = F a) ->
@@ -422,7 +429,7 @@ Proof.
       * apply zbddok_drop. exact B.
       * apply zchain_set_handles. exact Hc.
       * apply zcacheokb_set_handles. exact Q.
-    + split; [|split; [|split]]; simpl.
+    + split; [|split; [|split; [|split]]]; simpl.
       * intros y Hy. apply hget_hdel_other. congruence.
       * intros r Hr. split; [apply (zroot_ok st r I Hr)|]. intros a.
         rewrite zbfun_of_set_handles.
@@ -430,19 +437,22 @@ Proof.
         rewrite newfalse_same, andb_true_r. reflexivity.
       * apply le_n.
       * intros _. split; reflexivity.
+      * intros _ r _. apply fam_of_set_handles.
     + simpl. split; [apply hget_hdel_same | reflexivity].
   - (* ZHGc *)
     destruct (zgc_facts _ B Hc) as [Bg [Hcg [Xg [Hh Hlive]]]].
     set (sg := set_handles (gc_model (with_chain (hz_s C st))) (s_handles (hz_s C st))) in *.
     eexists. split; [reflexivity|]. split; [|split].
     + constructor; simpl; [exact Bg | exact Hcg | apply zokb_empty].
-    + split; [|split; [|split]]; simpl.
+    + split; [|split; [|split; [|split]]]; simpl.
       * intros x _. reflexivity.
       * intros r [h [Hin <-]]. pose proof (Hh h Hin) as Ok. split; [exact Ok|]. intros a.
         fold sg. rewrite (ext_nlevels _ _ Xg), newfalse_same, andb_true_r.
         symmetry. apply (zbfun_of_extends sg _ _ a Bg B Xg Ok).
       * fold sg. rewrite (ext_nlevels _ _ Xg). apply le_n.
       * intros _. fold sg. split; [symmetry; apply (ext_l2v _ _ Xg) | symmetry; apply (ext_v2l _ _ Xg)].
+      * intros _ r [h [Hin <-]]. fold sg. symmetry.
+        apply (grows_fam sg _ _ (zo_wf _ Bg) (zo_kind _ Bg) (extends_grows _ _ Xg) (Hh h Hin)).
     + simpl. intros id nd E0. fold sg in E0. destruct (Hlive id nd E0) as [E1 R1]. split; [exact E1|].
       clear - R1. remember (RN id) as q eqn:Eq. clear Eq.
       induction R1 as [q Hin|pid pnd e R1 IH Ep He].
@@ -459,17 +469,18 @@ Proof.
     + constructor; simpl; [exact B' | exact Hc' |].
       apply (zcacheokb_grows C cget _ s' (hz_c C st) (cav (hz_c C st)) B G); [| apply Hcav | exact Q].
       intros var vl Ev. rewrite Hv2l. rewrite nth_error_app1; [exact Ev|]. apply nth_error_Some. congruence.
-    + split; [|split; [|split]]; simpl.
+    + split; [|split; [|split; [|split]]]; simpl.
       * intros x _. rewrite Hh. reflexivity.
       * intros r Hr. pose proof (zroot_ok st r I Hr) as Ok. destruct (Hold r Ok) as [O' [_ Hb]].
         split; [exact O' | exact Hb].
       * lia.
       * discriminate.
+      * intros _ r Hr. apply (proj1 (proj2 (Hold r (zroot_ok st r I Hr)))).
     + simpl. split; [exact Hl2v|]. split; [exact Hv2l|]. split; [exact Hh|]. apply (gr_nodes _ _ G).
   - (* ZHSetVarOrder *)
     destruct Pre as [Hnd Hr].
     assert (Hsame : hframe_z st (ZHSetVarOrder order) st).
-    { split; [intros; reflexivity|]. split; [|split; [apply le_n | discriminate]].
+    { split; [intros; reflexivity|]. split; [|split; [apply le_n | split; discriminate]].
       intros r Hrr. split; [apply (zroot_ok st r I Hrr)|]. intros a.
       rewrite newfalse_same, andb_true_r. reflexivity. }
     destruct (Nat.leb (length order) 1) eqn:Elen.
@@ -495,11 +506,12 @@ Proof.
     destruct (zreorder_facts _ order B Hc Hnd Hr) as [B2 [Hc2 [Hn2 [Hh2 [Hf2 Hresp]]]]].
     eexists. split; [reflexivity|]. split; [|split].
     + constructor; simpl; [exact B2 | exact Hc2 | apply zokb_empty].
-    + split; [|split; [|split]]; simpl.
+    + split; [|split; [|split; [|split]]]; simpl.
       * intros x _. rewrite Hh2. reflexivity.
       * intros r [h [Hin <-]]. destruct (Hf2 h Hin) as [O2 F2]. split; [exact O2|]. intros a.
         rewrite Hn2, newfalse_same, andb_true_r. apply F2.
       * rewrite Hn2. apply le_n.
+      * discriminate.
       * discriminate.
     + simpl. split; [exact Hn2|]. split; [exact Hh2 | exact Hresp].
 Qed.
